@@ -280,16 +280,21 @@ def src_stmt(s, ind, out, lines):
             emit("@" + P(d, 3))
         ps = list(s[3])
         nd = len(s[4])
-        parts = [POOL[p] for p in ps[: len(ps) - nd]] + [f"{POOL[p]}={P(d, 2)}" for p, d in zip(ps[len(ps) - nd :], s[4])]
-        sty = s[7] if len(s) > 7 else None
-        if sty == "star" and ps and nd == 0:
-            parts[-1] = "*" + parts[-1]
-        elif sty == "kw" and ps and nd == 0:
-            parts[-1] = "**" + parts[-1]
-        elif sty == "posonly" and len(ps) >= 2 and nd == 0:
-            parts.insert(1, "/")
-        elif sty == "kwonly" and len(ps) >= 2 and nd == 0:
-            parts.insert(1, "*")
+        npo, nar, va, nkw, kw = s[7] if len(s) > 7 and s[7] else (0, len(ps), False, 0, False)
+        pos = [POOL[p] for p in ps[: npo + nar]]
+        for i, d in enumerate(s[4]):
+            j = npo + nar - nd + i
+            pos[j] = f"{pos[j]}={P(d, 2)}"
+        parts = pos[:npo] + (["/"] if npo else []) + pos[npo:]
+        rest = ps[npo + nar :]
+        if va:
+            parts.append("*" + POOL[rest[0]])
+            rest = rest[1:]
+        elif nkw:
+            parts.append("*")
+        parts += [POOL[p] for p in rest[:nkw]]
+        if kw:
+            parts.append("**" + POOL[rest[nkw]])
         emit(f"def {POOL[s[2]]}({', '.join(parts)}):")
         src_block(s[5], ind + 1, out, lines)
     elif k == "cls":
@@ -491,8 +496,6 @@ class Abs:
             ps += [x.arg for x in a.kwonlyargs]
             if a.kwarg:
                 ps.append(a.kwarg.arg)
-            if a.defaults and (a.vararg or a.kwonlyargs or a.kwarg):
-                raise Unsupported("mixed")
             return ("def", sid, _nm(s.name), [_nm(p) for p in ps], [abs_e(d) for d in a.defaults], self.block(s.body), [abs_e(d) for d in s.decorator_list])
         if isinstance(s, ast.ClassDef):
             if s.keywords:
@@ -616,23 +619,43 @@ class Gen:
             return ("b", r.choice(["and", "or"]), [sub() for _ in range(r.choice([2, 2, 3]))])
         if k < 0.87:
             return ("u", r.choice(["not", "not", "-", "~", "+"]), sub())
-        if k < 0.92:
+        if k < 0.91:
             ps = [self.newname(env) for _ in range(r.randint(0, 2))]
             ps = list(dict.fromkeys(ps))
-            env2 = dict(env, bound=env["bound"] | set(ps))
+            env2 = dict(env, bound=env["bound"] | set(ps), inlambda=True)
             return ("l", ps, self.expr(env2, d + 1))
-        if k < 0.97:
+        if k < 0.95:
+            # a walrus may sit in the element and in the conditions of a comprehension (PEP 572: it binds in the ENCLOSING scope), not
+            # in its iterable, and may not rebind a loop variable
             tg = list(dict.fromkeys(self.newname(env) for _ in range(r.choice([1, 1, 2]))))
-            env2 = dict(env, bound=env["bound"] | set(tg), nowalrus=True)
+            env2 = dict(env, bound=env["bound"] | set(tg), compvars=env.get("compvars", frozenset()) | set(tg))
             it = self.expr(dict(env, nowalrus=True), d + 1)
             conds = [self.expr(env2, d + 1) for _ in range(r.choice([0, 0, 1]))]
             return ("c", r.choice(["list", "gen", "set", "list"]), self.expr(env2, d + 1), tg, it, conds)
         if env.get("nowalrus"):
             return self.atom(env)
         x = self.newname(env)
+        if x in env.get("compvars", ()):
+            return self.atom(env)
         v = self.expr(env, d + 1)
-        env["walrus"].add(x)
+        if not env.get("inlambda"):
+            env["walrus"].add(x)  # (a walrus inside a lambda is local to the lambda)
         return ("w", x, v)
+
+    def comp_walrus(self, env):
+        """`any((last := v) > 3 for v in data)` and relatives: the walrus target is bound in the enclosing scope afterwards"""
+        r = self.r
+        x, v = self.newname(env), self.newname(env)
+        if x == v:
+            return self.atom(env)
+        w = ("w", x, ("n", v))
+        body = r.choice([("o", "compare", [w, ("k", False, "3")], [">"]), w, ("b", "and", [("n", v), w]), ("o", "call", [("n", self.nm(env)), w], [])])
+        conds = []
+        if r.random() < 0.3:
+            body, conds = ("n", v), [("o", "compare", [w, ("k", False, "3")], [">"])]
+        c = ("c", r.choice(["gen", "list", "set"]), body, [v], self.atom(env), conds)
+        env["walrus"].add(x)
+        return ("o", "call", [("n", self.nm(env)), c], []) if c[1] == "gen" else c
 
     def fexpr(self, env):
         r = self.r
@@ -645,6 +668,12 @@ class Gen:
         if k < 0.85:
             return ("b", r.choice(["and", "or"]), [a, ("n", self.nm(env))])
         return ("o", "binop", [a, ("n", self.nm(env))], ("+",))
+
+    def read_of(self, env, x):
+        """a command-looking expression whose first name is x"""
+        r = self.r
+        a, b = ("n", x), ("n", self.nm(env, 0.5))
+        return r.choice([a, ("o", "binop", [a, b], ("-", "")), ("u", "not", a), ("b", "and", [a, b]), ("o", "binop", [a, b], ("|",)), ("o", "attr", [a], "real")])
 
     def cmdlike(self, env):
         """expression statements that are also valid command text"""
@@ -739,6 +768,19 @@ class Gen:
             e = self.cmdlike(env) if cmd else self.expr(env)
             self.flush_walrus(env)
             return ("expr", sid, e, cmd)
+        if k < 0.335 and len(env["bound"]) >= 2:
+            # a pure-Python and / or over bound names — `ok = a or b`, `if a and b:` style — next to command lines
+            bs = sorted(env["bound"])
+            e = ("b", r.choice(["and", "or"]), [("n", r.choice(bs)) for _ in range(r.choice([2, 2, 3]))])
+            if r.random() < 0.5:
+                t = ("n", self.newname(env))
+                self.bind(env, [t[1]])
+                return ("assign", sid, [t], e)
+            return ("expr", sid, e, True)
+        if k < 0.345:
+            e = self.comp_walrus(env)
+            self.flush_walrus(env)
+            return ("expr", sid, e, False) if r.random() < 0.5 else ("assign", sid, [("n", self.newname(env))], e)
         if k < 0.42:
             tg = [self.tgt(env) for _ in range(r.choice([1, 1, 1, 2]))]
             v = self.expr(env)
@@ -824,19 +866,32 @@ class Gen:
             return ("pass", sid)
         if k < 0.80:
             f = self.newname(env)
-            ps = list(dict.fromkeys(self.newname(env) for _ in range(r.randint(0, 3))))
-            nd = r.choice([0, 0, 1]) if ps else 0
+            # every parameter kind, alone and together: positional-only, ordinary (the last ones with defaults), *args, keyword-only, **kwargs
+            npo, nar, va, nkw, kw = r.choice([0, 0, 1]), r.randint(0, 2), r.random() < 0.4, r.choice([0, 0, 1, 2]), r.random() < 0.4
+            want = npo + nar + int(va) + nkw + int(kw)
+            ps = []
+            while len(ps) < want:
+                x = self.newname(env)
+                if x not in ps:
+                    ps.append(x)
+            nd = r.choice([0, 0, 1]) if npo + nar else 0
             dfl = [self.expr(env, 2) for _ in range(nd)]
             decos = [("n", self.nm(env))] if r.random() < 0.15 else []
             self.flush_walrus(env)
             self.bind(env, [f])
             env2 = {"bound": env["bound"] | set(ps), "frame": set(ps), "kind": "function", "walrus": set(), "sess": env["sess"],
                     "parent": env, "depth": env.get("depth", 0) + 1}
-            body = self.block(env2, depth + 1)
-            sty = r.choice([None, None, "star", "posonly"] if self.runnable else [None, None, "star", "kw", "posonly", "kwonly"])
+            # the body reads each parameter (of whatever kind) in a line that is also valid command text
+            body = []
+            for x in ps:
+                if self.budget > 0 and r.random() < 0.6:
+                    self.budget -= 1
+                    body.append(("expr", self.sid(), self.read_of(env2, x), True))
+            body += self.block(env2, depth + 1)
             if self.runnable and self.budget > 0 and r.random() < 0.75:
-                self.pending.append(("o", "call", [("n", f)] + [self.atom(env) for _ in ps], []))
-            return ("def", sid, f, ps, dfl, body, decos, sty)
+                kwo = ps[npo + nar + int(va) : npo + nar + int(va) + nkw]
+                self.pending.append(("o", "call", [("n", f)] + [self.atom(env) for _ in range(npo + nar)] + [self.atom(env) for _ in kwo], [POOL[x] for x in kwo]))
+            return ("def", sid, f, ps, dfl, body, decos, (npo, nar, va, nkw, kw))
         if k < 0.85:
             cn = self.newname(env)
             bases = [("n", self.nm(env))] if r.random() < 0.3 else []
@@ -1036,9 +1091,44 @@ class ShapeMismatch(Exception):
     pass
 
 
-def observe(tree, prog):
-    """per statement id: was (part of) the statement turned into a subprocess call / a builtin_cmd call"""
+def _norm(n):
+    """location-free form of a tree: node types and fields only (`kind` / `type_comment` carry no meaning)"""
+    if isinstance(n, ast.AST):
+        return (type(n).__name__, [(f, _norm(getattr(n, f, None))) for f in n._fields if f not in ("kind", "type_comment")])
+    if isinstance(n, list):
+        return [_norm(x) for x in n]
+    return repr(n)
+
+
+def observe(tree, prog, pytree=None):
+    """per statement id: was (part of) the statement turned into a subprocess call / a builtin_cmd call; and, against CPython's
+    tree of the same source, are the statement's own parts the tree `ast.parse` gives (`same`)"""
     obs = {}
+    pynodes = {}
+    if pytree is not None:
+        a = Abs()
+
+        def pyblk(nodes):
+            for n in nodes:
+                pyst(n)
+
+        def pyst(n):
+            sid = a.sid()
+            pynodes[sid] = n
+            if isinstance(n, ast.Try):
+                pyblk(n.body)
+                for h in n.handlers:
+                    pynodes[a.sid()] = h
+                    pyblk(h.body)
+                pyblk(n.orelse)
+                pyblk(n.finalbody)
+            else:
+                for f in ("body", "orelse"):
+                    v = getattr(n, f, None)
+                    if isinstance(v, list) and v and isinstance(v[0], ast.stmt):
+                        pyblk(v)
+
+        pyblk(pytree.body)
 
     def look(sid, node):
         conv = bcmd = False
@@ -1046,9 +1136,12 @@ def observe(tree, prog):
             for n in ast.walk(e):
                 conv = conv or _is_subproc_call(n)
                 bcmd = bcmd or _is_builtin_cmd(n)
-        o = obs.setdefault(sid, {"conv": False, "bcmd": False})
+        o = obs.setdefault(sid, {"conv": False, "bcmd": False, "same": True})
         o["conv"] |= conv
         o["bcmd"] |= bcmd
+        if sid in pynodes:
+            pn = pynodes[sid]
+            o["same"] = type(pn) is type(node) and _norm(_own_exprs(node)) == _norm(_own_exprs(pn))
 
     def blk(nodes, stmts):
         if len(nodes) != len(stmts):
@@ -1274,7 +1367,7 @@ def check_program(ctx, stream, prog, sess, src=None, local_only=()):
             ctx.extra["rejected_python"].append({"source": src, "error": err})
         return 0
     try:
-        obs = observe(tree, prog)
+        obs = observe(tree, prog, ast.parse(src))
     except ShapeMismatch as e:
         # the transformer changed the statement structure of valid Python: only possible through a conversion
         ctx.count("shape-mismatch")
@@ -1346,6 +1439,10 @@ def check_program(ctx, stream, prog, sess, src=None, local_only=()):
                 k = classify(ctx, real.B, sorted(sess), prog_sx, sid, lambda r: r["offer"]) if not m["offer"] else None
                 ctx.spec_failure(c1, {"converted": False, "model_offers": m["offer"]},
                                  "the statement reads a name that was deleted and is not bound any more, yet it stays Python", k)
+            if m["ok"] and not o["conv"] and not o["bcmd"] and not m["builtin"] and not o["same"]:
+                # "exactly Python's meaning": what is kept must be the tree CPython builds, not merely free of subprocess calls
+                ctx.spec_failure(c1, {"converted": False, "tree_differs_from_ast_parse": True},
+                                 "every name the statement reads is bound, yet its tree is not the one ast.parse builds", None)
             if m["shadow"] and o["bcmd"]:
                 k = classify(ctx, real.B, sorted(sess), prog_sx, sid, lambda r: not r["builtin"]) if m["builtin"] else None
                 ctx.spec_failure(c1, {"builtin_cmd": True}, "a bare name bound by the user is looked up in `builtins` instead", k)
@@ -1597,7 +1694,7 @@ def run_python(src, names, mode="exec", lnames=()):
     return r
 
 
-def run_xonsh(src, names, mode="exec", lnames=()):
+def run_xonsh(src, names, mode="exec", lnames=(), real_helpers=False):
     """the same source through the real Execer.exec; every subprocess helper of the session is replaced by a recorder"""
     import contextlib
 
@@ -1619,6 +1716,10 @@ def run_xonsh(src, names, mode="exec", lnames=()):
     shown = []
     hook = sys.displayhook
     sys.displayhook = lambda v: shown.append(_tag(v)) if v is not None else None
+    if real_helpers:
+        helpers = []  # (the mixed stream runs a real, failing, non-raising command first)
+        XSH.aliases["xvfail"] = lambda args, stdin=None: 1
+        XSH.env["XONSH_SUBPROC_RAISE_ERROR"] = True  # (the shell's default)
     for h in helpers:
         setattr(XSH, h, rec(h))
     try:
@@ -1718,6 +1819,24 @@ def stream_exec(ctx, n, name="exec-vs-python"):
         singles.append([to_source(prog)[0], nm_, "single", split(nm_)])
     items += singles
     res = common.map_in_child(_exec_item, items, per_item_timeout=30, label="c02-exec")
+    # the same programs after a command that FAILED WITHOUT RAISING (one namespace; `!(xvfail)`, a callable alias returning 1, run
+    # for real): the raise check of command chains must not reach pure-Python and / or statements
+    mixed = [[src, names, "exec", []] for src, names, _p in batch[: max(20, len(batch) // 3)] if " and " in src or " or " in src]
+    mres = common.map_in_child(_mixed_item, mixed, per_item_timeout=30, label="c02-mixed")
+    for it, r in zip(mixed, mres):
+        case = {"stream": name, "mode": "exec after a failed, non-raising command", "session_names": it[1], "source": FAIL_PREFIX + it[0]}
+        if r is common.HANG or r == common.HANG or "__exc__" in r:
+            ctx.count("exec/mixed: no result (worker)")
+            continue
+        py, xo = r["py"], r["xo"]
+        if py["exc"] == "RUNAWAY" or xo["exc"] == "RUNAWAY":
+            continue
+        ctx.count("exec/after-failed-command")
+        ctx.case(name, ("mixed", it[0]), len(py["log"]) >= 3)
+        if not _same_run(py, xo):
+            diff = [k for k in ("log", "out", "exc", "ns", "shown") if py[k] != xo[k]]
+            ctx.spec_failure(case, {"differs_in": diff, "python": {k: py[k] for k in diff}, "xonsh": {k: xo[k] for k in diff}},
+                             "every name is bound, yet after a failed (non-raising) command the Python statements did not behave like builtin exec", None)
     for it, r in zip(items, res):
         case = {"stream": name, "mode": it[2], "session_names": it[1], "session_names_in_locals_only": it[3], "source": it[0]}
         if r is common.HANG or r == common.HANG:
@@ -1744,6 +1863,18 @@ def stream_exec(ctx, n, name="exec-vs-python"):
 # malformed lines; most cannot be re-read as a command (brackets, strings, indentation), a few can (xonsh then runs a command: no claim)
 BROKEN = ["x = (", "y = [1, 2", "def f(:", "    z = 1", "x = 'abc", "foo(1, ", "}", "x = {1: ", '"""open', "x = )", "foo(", "[", "x = ]", "def f(x:",
           "try:", "return (", "$(", "x = '''abc", "print('a' 1", "f(x for", "x = @(", "if x", "x = = 1", "1 +", "class"]
+
+
+FAIL_PREFIX = "xvr = !(xvfail)\nxvr.rtn\n"
+
+
+def _mixed_item(item):
+    """a failing command that does not raise (`!(…)`, rtn 1) runs first; the pure-Python rest must behave as under builtin exec"""
+    src, names, _mode = item[:3]
+    py = run_python(src, names, "exec")
+    xo = run_xonsh(FAIL_PREFIX + src, names, "exec", real_helpers=True)
+    xo["ns"].pop("xvr", None)
+    return {"py": py, "xo": xo}
 
 
 def _syntax_item(item):
